@@ -59,7 +59,7 @@ def run(tier, seed, started):
     coverage = {
         'evaluations': c['executions'],
         'distinct_nontrivial': len(res.sets.get('schedules', ())),
-        'rule': ('13 scenarios x every choice vector with total deviation cost <= bound over the '
+        'rule': ('16 scenarios x every choice vector with total deviation cost <= bound over the '
                  'quiescent points of the explored phase; distinct = (scenario, choice vector)'),
         'deviation_bound_completed': 1 if tier == 'quick' else 2,
         'choice_points': c['choice_points'],
